@@ -15,6 +15,7 @@ import ButlerModel.Driver.C09
 import ButlerModel.Driver.C01
 import ButlerModel.Driver.C08
 import ButlerModel.Driver.C19
+import ButlerModel.Driver.C20
 /-! Line-protocol driver: one request per line on stdin, one reply per line on stdout.
 The first token selects the model; stateful models keep their state in `DState`. -/
 
@@ -39,6 +40,7 @@ def step (st : DState) (line : String) : DState × String :=
   | "dim" :: rest => (st, Driver.C12.handle rest)
   | "expr" :: rest => (st, Driver.C14.handle rest)
   | "cfg" :: rest => (st, Driver.C18.handle rest)
+  | "conc" :: rest => (st, Driver.C20.handle rest)
   | "txn" :: rest => (st, Driver.C07.handle rest)
   | "txc" :: rest => (st, Driver.C07c.handle rest)
   | "cal" :: rest => let (c, out) := Driver.C04.handle st.cal rest; ({ st with cal := c }, out)
